@@ -544,6 +544,109 @@ func handlerPhase() {
 			run.Outcome(fmt.Sprintf("rpc:%s:%s:attempts=%d", op, te.name, calls))
 		}
 	}
+	// caller cancellation that arrives while the worker is inside a token
+	// operation: the token must see it (a token that honours its context then
+	// stops) and the client must not start another attempt. The worker's key
+	// cache is cold for the first request and warm for the second.
+	for _, op := range []string{"getkey", "sign"} {
+		for _, warm := range []bool{false, true} {
+			vtime.ResetClock()
+			faketoken.Reset()
+			cfg := relicx.BaseConfig(faketoken.Type)
+			tconf := cfg.Tokens["tok"]
+			tconf.Retries = 3
+			tconf.Timeout = attemptTimeout
+			base, err := faketoken.Open(cfg, "tok", nil)
+			if err != nil {
+				panic(err)
+			}
+			h := workercmd.VerifHandler(tokencache.New(base, time.Hour), []byte("sekrit"), func() {})
+			calls := 0
+			http.DefaultClient.Transport = rt(func(req *http.Request) (*http.Response, error) {
+				calls++
+				rec := httptest.NewRecorder()
+				r2 := httptest.NewRequest(req.Method, req.URL.String(), req.Body).WithContext(req.Context())
+				r2.Header = req.Header
+				h.ServeHTTP(rec, r2)
+				if err := req.Context().Err(); err != nil {
+					return nil, err // the connection of a request that was given up yields no response
+				}
+				res := rec.Result()
+				res.Request = req
+				return res, nil
+			})
+			cli := worker.VerifNewToken(cfg, tconf, "sekrit", "worker.invalid:1")
+			digest := make([]byte, 32)
+			if warm {
+				key, err := cli.GetKey(context.Background(), "rsaA")
+				if err == nil {
+					_, err = key.SignContext(context.Background(), digest, crypto.SHA256)
+				}
+				if err != nil {
+					fmt.Println("HARNESS-ERROR: warm-up request through the worker fails:", err)
+					os.Exit(2)
+				}
+				if op == "getkey" {
+					continue // a warm lookup never reaches the token
+				}
+			}
+			ctx, cancel := context.WithCancel(context.Background())
+			var seen context.Context
+			tokenSawCancel := false
+			inside := 0
+			arrive := func(tctx context.Context) error {
+				inside++
+				seen = tctx
+				cancel() // the caller gives up now
+				if err := tctx.Err(); err != nil {
+					tokenSawCancel = true
+					return err
+				}
+				return nil // a token that would go on working for nobody
+			}
+			if op == "getkey" {
+				faketoken.S.GetKey = func(tctx context.Context, t, k string) (token.Key, error) {
+					if err := arrive(tctx); err != nil {
+						return nil, err
+					}
+					return nil, nil
+				}
+			} else {
+				faketoken.S.SignCtx = func(tctx context.Context, k *faketoken.Key, d []byte, o crypto.SignerOpts) ([]byte, error) {
+					if err := arrive(tctx); err != nil {
+						return nil, err
+					}
+					return k.Signer.Sign(nil, d, o)
+				}
+			}
+			calls = 0
+			var gotErr error
+			key, gerr := cli.GetKey(ctx, "rsaA")
+			gotErr = gerr
+			if gerr == nil && op == "sign" {
+				_, gotErr = key.SignContext(ctx, digest, crypto.SHA256)
+			}
+			cancel()
+			run.Eval(1)
+			name := fmt.Sprintf("%s/worker-key-cache-warm=%v", op, warm)
+			run.Distinct("handler-cancel|" + name)
+			desc := fmt.Sprintf("worker RPC %s, caller cancels while the token operation runs: token entered %d time(s), token's context cancelled=%v, %d RPC(s), client error %v", name, inside, tokenSawCancel, calls, gotErr)
+			_ = seen
+			switch {
+			case inside == 0:
+				fmt.Println("HARNESS-ERROR: the scripted token operation was never reached:", name)
+				os.Exit(2)
+			case !tokenSawCancel:
+				run.Violation("rpc:cancellation-does-not-reach-token:"+op, desc, desc)
+			case gotErr == nil:
+				run.Violation("rpc:cancelled-operation-reports-success:"+op, desc, desc)
+			case inside > 1:
+				run.Violation("rpc:attempt-after-cancellation:"+op, desc, desc)
+			default:
+				run.Outcome("rpc:cancel-inside-" + op + ":reaches-token-and-ends")
+			}
+		}
+	}
 	// per-process secret
 	faketoken.Reset()
 	cfg := relicx.BaseConfig(faketoken.Type)
